@@ -147,5 +147,5 @@ Example monitor_check_reached :
   forallb small_event probe_evs = true /\ check_case (model_case probe_evs) = VOk /\
   (let c := model_case probe_evs in
    check_case (mkCase (c_evs c) (c_outs c) (map (fun _ => [[]; []; []; []; []]) (c_dumps c))))
-  = VViolation 9 kind_lost.
+  = VViolation 9 (kind_lost ++ ";mismatch:backing store@6")%string.
 Proof. vm_compute. repeat split; reflexivity. Qed.
